@@ -52,6 +52,22 @@ pub fn gen(ctx: &mut Ctx) {
             ctx.stat("c05.corpus.store_locked_by_another_user");
         }
     }
+    // ---- corpus: an exclude-list hit is reported as such whatever else is wrong with the request (an algorithm list
+    //      with nothing supported, a resident key the store cannot hold), and ids of any length can be excluded
+    for kind in [Kind::Slot, Kind::RefFull, Kind::RefNonDisc, Kind::Map, Kind::RefFullEmptyOk] {
+        for idlen in [16usize, 1, 80, 300] {
+            let id = ctx.rng.bytes(idlen);
+            let pk = make_passkey(ctx, id.clone(), rps[0], Some(vec![9]), None, None);
+            let w = World { kind, counter_on: false, id_len: 16, hm: Hm::None, preload: vec![pk] };
+            let mut m1 = simple_make(ctx, rps[0]); m1.exclude = Some(vec![id.clone()]); m1.algs = vec![-257];
+            let mut m2 = simple_make(ctx, rps[0]); m2.exclude = Some(vec![id.clone()]); m2.algs = vec![-8, -36]; m2.rk = true;
+            let mut m3 = simple_make(ctx, rps[0]); m3.exclude = Some(vec![vec![7, 7], id.clone()]); m3.rk = true;
+            let mut m4 = simple_make(ctx, rps[0]); m4.exclude = Some(vec![vec![7, 7]]); m4.algs = vec![-257];       // nothing held is named: the algorithm error shows
+            let mut m5 = simple_make(ctx, rps[0]); m5.exclude = Some(vec![id.clone()]);
+            run_case(ctx, "C05", &w, &[step(Op::Make(m1)), step(Op::Make(m2)), step(Op::Make(m3)), step(Op::Make(m4)), step(Op::Make(m5))]);
+            ctx.stat("c05.corpus.exclusion_and_other_refusals");
+        }
+    }
     // ---- corpus: related RP IDs (parent domain, subdomain, other case) never share credentials
     for kind in [Kind::Slot, Kind::Map, Kind::RefFull, Kind::SlotArcMutex] {
         for (held, asked) in [("example.com", "login.example.com"), ("login.example.com", "example.com"), ("example.com", "Example.com"), ("example.com", "example.com."), ("example.com", "xample.com")] {
@@ -89,7 +105,7 @@ pub fn gen(ctx: &mut Ctx) {
             ctx.stat("c05.sequences.same_handle_across_rps");
         }
     }
-    let kinds = [Kind::RefFull, Kind::RefFull, Kind::RefForced, Kind::Map, Kind::Slot, Kind::MapArcMutex, Kind::MapArcRwLock, Kind::SlotArcMutex, Kind::SlotRwLock,
+    let kinds = [Kind::RefFull, Kind::RefFullEmptyOk, Kind::RefForced, Kind::Map, Kind::Slot, Kind::MapArcMutex, Kind::MapArcRwLock, Kind::SlotArcMutex, Kind::SlotRwLock,
         Kind::MapMutex, Kind::MapRwLock, Kind::SlotArcRwLock, Kind::SlotMutex, Kind::RefArcMutex, Kind::RefArcRwLock, Kind::RefMutex, Kind::RefRwLock];
     let n = if ctx.thorough { 4000 } else { 400 };
     for i in 0..n {
